@@ -419,7 +419,7 @@ def check(cx):
         T = p.must_reach_set({"storage::page::PageZeroHeader::mark_transaction_aborted"})
         cx.verdict(p.all_success_paths_call(f, T, 0), r7, "persist", f.where(),
                    "abort persists the id in page zero", "abort no longer persists the aborted id")
-        st = [s for _, s in core.region_aggregates(f, range(len(f.blocks)), "multithreading::coordinator::TransactionState")
+        st = [s for g in K.family(p, f) for _, s in core.region_aggregates(g, range(len(g.blocks)), "multithreading::coordinator::TransactionState")
               if s["rv"]["variant"] == "Aborted"]
         cx.verdict(bool(st), r7, "state", f.where(), "entry.state = Aborted", "abort does not store Aborted")
 
